@@ -18,7 +18,7 @@ META = {
             "the first argument tuple of each (class, callable) the full product of letter-case variants "
             "(lower/UPPER/Capitalised/aLtErNaTiNg per token) x aliases; for every other argument tuple a lower "
             "and an upper-case spelling; x every argument shape and type-name spelling; plus and/or/xor trees of "
-            "depth <= 2 over 6 leaves; data-path arguments in 15 argument positions x 14 paths; H: for every spec of a 60-spec "
+            "depth <= 2 over 6 leaves; data-path arguments in 21 argument positions x 18 paths, and x 6 paths that differ only in the type of an equal-valued part (1 / 1.0 / True; 0 / 0.0 / False) parsed in one process in both orders; H: for every spec of a 60-spec "
             "pool as the first spec ever parsed in a pristine process, every spec of the pool parsed next; a case is one (term, spelling) pair; non-trivial = parsed and compared "
             "on the probe documents",
     "assumptions": ["operator keys and/or/xor are lower-case only (the statement puts letter case on the leaf spelling)",
@@ -94,10 +94,10 @@ def hist_pool():
     return out
 
 
-def path_arg_cases():
+def path_arg_cases(pargs=None):
     from mc.props.c17 import PARGS, positions
     out = []
-    for pa in PARGS:
+    for pa in (PARGS if pargs is None else pargs):
         for pos, cond in positions(pa):
             if cond[0] == "leaf":
                 out.append((cond, S.cond_spec(cond)))
@@ -114,6 +114,7 @@ def units(tier):
     u.append(["T"])
     u.append(["P"])
     u.append(["NOISE"])
+    u += [["PC", 0], ["PC", 1]]
     u += [["H", i] for i in range(len(hist_pool()))]
     return u
 
@@ -147,6 +148,13 @@ def run_unit(unit, tier):
         for i, (t, spec) in enumerate(path_arg_cases()):
             check_case(res, t, spec, key=("P", i))
         res.sample({"term": path_arg_cases()[0][0], "spec": path_arg_cases()[0][1]})
+    elif unit[0] == "PC":
+        # data-path arguments that differ only in the type of an equal-valued part (1 / 1.0 / True), all parsed in one
+        # process, in both orders
+        from mc.props.c17 import PARGS_CONF
+        cs = path_arg_cases(PARGS_CONF if unit[1] == 0 else PARGS_CONF[::-1])
+        for i, (t, spec) in enumerate(cs):
+            check_case(res, t, spec, key=("PC", unit[1], i))
     elif unit[0] == "H":
         # H-space for hidden parser state: this unit runs in a pristine process; spec i is the first
         # spec ever parsed, then every spec of the pool is parsed and compared with the DSL
@@ -174,6 +182,20 @@ def run_unit(unit, tier):
                             continue
                         term = L2[nm] if term == T.NULL else (op, term, L2[nm])
                     check_case(res, term, {op: [spec_of(L2[nm]) for nm in tup]}, key=("N", op, tup))
+        # the same spec *object* at several places of one structure (what a YAML anchor / alias loads as, or a Python
+        # dict used twice): leaf specs and operator sub-specs, twice in one list and in two different branches
+        def shared_spec(t, memo):
+            k = repr(t)
+            if k not in memo:
+                memo[k] = spec_of(t) if t[0] in ("leaf", "null") else {t[0]: [shared_spec(t[1], memo), shared_spec(t[2], memo)]}
+            return memo[k]
+        for op1 in ("and", "or", "xor"):
+            for op2 in ("and", "or", "xor"):
+                for a, b in (("v1", "v2"), ("v1", "k1"), ("v3", "v3"), ("null", "v2")):
+                    X = (op2, L2[a], L2[b])
+                    for t in ((op1, X, X), (op1, ("and", X, L2["v3"]), ("or", X, L2["v2"])), (op1, L2[a], L2[a]),
+                              (op1, (op2, X, L2["v1"]), X)):
+                        check_case(res, drop_null(t), shared_spec(t, {}), key=("SH", op1, op2, a, b, repr(t)))
         for i, t in enumerate(trees(2)):
             kinds = T.cond_kinds(t)
             if "key" in kinds and "index" in kinds:
@@ -251,7 +273,23 @@ def check_case(res, t, spec, key, before=None, replaying=False):
     res.count("nontrivial")
 
 
+def drop_null(t):
+    """The term without its null operands (null is the identity of every operator)."""
+    if t[0] in ("and", "or", "xor"):
+        a, b = drop_null(t[1]), drop_null(t[2])
+        if a == T.NULL:
+            return b
+        if b == T.NULL:
+            return a
+        return (t[0], a, b)
+    return t
+
+
 def fresh_spec(x):
+    return fresh(x)     # type-exact copy that keeps sharing inside the structure
+
+
+def _fresh_spec_unshared(x):
     if isinstance(x, dict):
         return {k: fresh_spec(v) for k, v in x.items()}
     if isinstance(x, list):
